@@ -793,6 +793,7 @@ class Engine(object):
         while work:
             node, ts, env, st = work.pop()
             ctx.node = node
+            ctx.here = (node.id, st)
             ctx.env = env
             ctx.callvals = {}
             ts = rule.on_node(ctx, node, ts)
